@@ -90,6 +90,9 @@ type interpreter struct {
 	inited             map[*ssa.Package]bool
 	depth              int
 	panicOrigin        []string
+	mainpkg            *ssa.Package             // the harness package (entry function's package)
+	stubs              map[string]*ssa.Function // verifStub_<name> functions of the harness package
+	stubMemo           map[*ssa.Function]*ssa.Function
 }
 
 type deferred struct {
